@@ -608,3 +608,57 @@ Proof.
   - intros k. apply frame_after_end. exact WS.
   - intros l1 l2. apply frames_complete_at_run_end. exact WS.
 Qed.
+
+(* ------------------------------------------------------------------ wf_cfg is needed *)
+(* the guard released before the side-effects append: frames out of order *)
+Definition bad_cfg_release_early : cfg := {|
+  permits := 1; shared_lock := true; stray_sites := 0;
+  lockfree := lockfree ref_cfg; registered := registered ref_cfg;
+  span_tool := [OAcquire; ORun; OEmit; ORelease; OAppend];
+  span_ro := span_ro ref_cfg; span_loop_tool := span_loop_tool ref_cfg;
+  span_loop_ro := span_loop_ro ref_cfg; span_ckpt := span_ckpt ref_cfg; span_task := span_task ref_cfg
+|}.
+
+(* the tool started before the guard is taken: two mutating calls in progress *)
+Definition bad_cfg_acquire_late : cfg := {|
+  permits := 1; shared_lock := true; stray_sites := 0;
+  lockfree := lockfree ref_cfg; registered := registered ref_cfg;
+  span_tool := [ORun; OAcquire; OEmit; OAppend; ORelease];
+  span_ro := span_ro ref_cfg; span_loop_tool := span_loop_tool ref_cfg;
+  span_loop_ro := span_loop_ro ref_cfg; span_ckpt := span_ckpt ref_cfg; span_task := span_task ref_cfg
+|}.
+
+Definition two_writers : actors_t := fun i =>
+  match i with 0 | 1 => Some (AEnv s_write true) | _ => None end.
+
+Definition sched_release_early : list nat := [0; 0; 0; 0; 0; 1; 1; 1; 1; 1; 1; 0].
+
+Lemma bad_release_early :
+  wf_cfg bad_cfg_release_early = false
+  /\ holder (run (sys bad_cfg_release_early two_writers) sched_release_early) = None
+  /\ ends_a (tr_of bad_cfg_release_early two_writers sched_release_early) = [(1, 0%N); (0, 0%N)]
+  /\ frames (tr_of bad_cfg_release_early two_writers sched_release_early) = [(0, 0%N); (1, 0%N)].
+Proof. vm_compute. auto. Qed.
+
+Lemma bad_acquire_late :
+  wf_cfg bad_cfg_acquire_late = false
+  /\ is_open (tr_of bad_cfg_acquire_late two_writers [0; 1]) 0 = true
+  /\ is_open (tr_of bad_cfg_acquire_late two_writers [0; 1]) 1 = true.
+Proof. vm_compute. auto. Qed.
+
+(* nothing but an acquire ever waits, for any actor of any system *)
+Lemma only_acquire_waits f sched i ins rest :
+  code (run f sched) i = ins :: rest -> ins <> IAcq ->
+  code (step (run f sched) i) i = rest
+  /\ trace (step (run f sched) i) = (i, ins) :: trace (run f sched).
+Proof. apply step_progress. Qed.
+
+(* the code of a read-only call (either call site, attached or not) contains no acquire *)
+Lemma readonly_call_no_acq c l k :
+  wf_cfg c = true ->
+  ~ In IAcq (compile_span l k false (span_ro c)) /\ ~ In IAcq (compile_span l k false (span_loop_ro c)).
+Proof.
+  intros W. apply wf_cfg_spans in W. split.
+  - apply compile_span_no_acq. apply (so_ro_noacq _ W).
+  - apply compile_span_no_acq. apply (so_loop_ro_noacq _ W).
+Qed.
